@@ -122,22 +122,36 @@ class PathSum:
         the same test of the same value: equal after substitution (call results identified by call site), with
         `x != 0` / `x == 0` / `not x` read as tests of x, and no call in between that is applied to the value tested."""
         seen: t.Dict[str, bool] = {}
+        compound: t.List[t.Tuple[ast.expr, bool]] = []
         for e, pol in self.atoms():
-            core = e
-            while True:
-                if isinstance(core, ast.UnaryOp) and isinstance(core.op, ast.Not):
-                    core, pol = core.operand, not pol
-                elif isinstance(core, ast.Compare) and len(core.ops) == 1 and isinstance(core.ops[0], (ast.Eq, ast.NotEq)) and isinstance(core.comparators[0], ast.Constant) and core.comparators[0].value == 0 and not isinstance(core.comparators[0].value, bool):
-                    pol = pol if isinstance(core.ops[0], ast.NotEq) else not pol
-                    core = core.left
-                else:
-                    break
+            core, pol = canon_test(e, pol)
             if isinstance(core, ast.Compare) and len(core.ops) == 1 and isinstance(core.ops[0], (ast.Is, ast.IsNot)) and isinstance(core.comparators[0], ast.Constant) and core.comparators[0].value is None:
                 continue  # `x is None` and `not x` are different tests
+            if isinstance(core, ast.BoolOp):
+                compound.append((core, pol))
+                continue
             k = self.owner.key(core)
             if k in seen and seen[k] != pol:
                 return False
             seen.setdefault(k, pol)
+
+        def ev(x: ast.expr) -> t.Optional[bool]:
+            """Three-valued value of a condition from the atomic decisions of this path."""
+            c, p = canon_test(x, True)
+            if isinstance(c, ast.BoolOp):
+                vals = [ev(v) for v in c.values]
+                if isinstance(c.op, ast.And):
+                    r: t.Optional[bool] = False if any(v is False for v in vals) else (True if all(v is True for v in vals) else None)
+                else:
+                    r = True if any(v is True for v in vals) else (False if all(v is False for v in vals) else None)
+            else:
+                r = seen.get(self.owner.key(c))
+            return None if r is None else (r if p else not r)
+
+        for c, pol in compound:
+            v = ev(c)
+            if v is not None and v != pol:
+                return False  # e.g. `a and b` decided false after a and b were each decided true
         return True
 
     def facts(self, before: t.Optional[Ev] = None, abbr: t.Optional[t.Dict[str, ast.AST]] = None) -> t.Set[str]:
@@ -199,11 +213,58 @@ class PathSum:
         return f"<Path {self.exit} {self.text(self.value) if self.value is not None else ''} | {sorted(self.facts())}>"
 
 
+REPO: t.Any = None  # set by the check driver: lets summaries see through value carriers (NamedTuple / dataclass constructors)
+
+
+def _carrier_fields(call: ast.AST, mod: t.Any) -> t.Optional[t.Dict[str, ast.expr]]:
+    """Ctor(a, b=c) of a package NamedTuple / dataclass -> {field: argument expression} (in field order)."""
+    if REPO is None or not isinstance(call, ast.Call) or not isinstance(call.func, (ast.Name, ast.Attribute)):
+        return None
+    try:
+        cls = REPO.resolve(call.func, mod)
+    except Exception:
+        return None
+    from .load import Cls
+
+    if not isinstance(cls, Cls) or not cls.is_dataclass or cls.find_method("__init__") is not None or cls.find_method("__post_init__") is not None:
+        return None
+    params = [p.name for p in cls.init_params()]
+    if len(call.args) > len(params) or any(isinstance(a, ast.Starred) for a in call.args) or any(k.arg is None for k in call.keywords):
+        return None
+    out: t.Dict[str, ast.expr] = {}
+    for p_, a in zip(params, call.args):
+        out[p_] = a
+    for k in call.keywords:
+        out[t.cast(str, k.arg)] = k.value
+    if list(out) != [p_ for p_ in params if p_ in out]:
+        out = {p_: out[p_] for p_ in params if p_ in out}
+    out["__tuple__"] = ast.Constant(value=any(x.endswith("NamedTuple") for x in cls.ext_bases))  # type: ignore[assignment]
+    out["__params__"] = ast.Constant(value=",".join(params))  # type: ignore[assignment]
+    return out
+
+
 class _Sub(ast.NodeTransformer):
-    def __init__(self, env: t.Dict[str, ast.expr], known: t.Optional[t.Dict[str, bool]] = None) -> None:
+    def __init__(self, env: t.Dict[str, ast.expr], known: t.Optional[t.Dict[str, bool]] = None, mod: t.Any = None) -> None:
         self.env = env
         self.known = known or {}
         self.bound: t.List[t.Set[str]] = []
+        self.mod = mod
+
+    def visit_Attribute(self, node: ast.Attribute) -> ast.AST:
+        self.generic_visit(node)
+        cf = _carrier_fields(node.value, self.mod)
+        if cf is not None and node.attr in cf and isinstance(node.ctx, ast.Load):
+            return cf[node.attr]  # Ctor(a=X).a  is  X
+        return node
+
+    def visit_Subscript(self, node: ast.Subscript) -> ast.AST:
+        self.generic_visit(node)
+        cf = _carrier_fields(node.value, self.mod)
+        if cf is not None and isinstance(node.slice, ast.Constant) and isinstance(node.slice.value, int) and t.cast(ast.Constant, cf["__tuple__"]).value:
+            params = t.cast(str, t.cast(ast.Constant, cf["__params__"]).value).split(",")
+            if 0 <= node.slice.value < len(params) and params[node.slice.value] in cf:
+                return cf[params[node.slice.value]]
+        return node
 
     def visit_IfExp(self, node: ast.IfExp) -> ast.AST:
         test = self.visit(node.test)
@@ -336,7 +397,7 @@ class Summary:
             ps.events.append(Ev("cond", ast.parse(txt, mode="eval").body, ast.parse(txt, mode="eval").body, pol=pol))
 
         def sub(e: ast.expr) -> ast.expr:
-            return t.cast(ast.expr, _Sub(env, known).visit(copy.deepcopy(e)))
+            return t.cast(ast.expr, _Sub(env, known, self.f.mod).visit(copy.deepcopy(e)))
 
         def record_calls(exprs: t.Iterable[t.Optional[ast.AST]]) -> None:
             for root in exprs:
@@ -364,8 +425,11 @@ class Summary:
                     if isinstance(el, ast.Starred):
                         assign(el.value, ast.Subscript(value=value, slice=ast.Slice(lower=ast.Constant(value=i)), ctx=ast.Load()), node)
                         continue
+                    cf = _carrier_fields(value, self.f.mod)
                     if isinstance(value, (ast.Tuple, ast.List)) and len(value.elts) == len(target.elts) and not any(isinstance(x, ast.Starred) for x in value.elts):
                         assign(el, value.elts[i], node)
+                    elif cf is not None and t.cast(ast.Constant, cf["__tuple__"]).value and i < len(t.cast(str, t.cast(ast.Constant, cf["__params__"]).value).split(",")) and t.cast(str, t.cast(ast.Constant, cf["__params__"]).value).split(",")[i] in cf:
+                        assign(el, cf[t.cast(str, t.cast(ast.Constant, cf["__params__"]).value).split(",")[i]], node)
                     else:
                         assign(el, ast.Subscript(value=value, slice=ast.Constant(value=i), ctx=ast.Load()), node)
             else:
